@@ -191,6 +191,9 @@ class Run:
                 coll, kinds = self.ev.as_collection(v, node)
                 if coll is not None:
                     return not self.ev.cmp_count(coll, frozenset(kinds), "==", 0)
+            if isinstance(v, SObj) and v.meta.get("truth_unknown") and v.known is _NOVAL:
+                # an object of a class this analysis does not see (a callable with __bool__/__len__): either truth value
+                return self.decide(("truthy", v.uid))
             if isinstance(v, SObj):
                 ks = set(v.kinds)
                 t = {k for k in ks if k in ("TRUE", "TAG", "META", "HTMLDEP", "JSXTAG", "REPR_ONLY", "TAGIFIABLE_ONLY",
@@ -237,6 +240,9 @@ class Run:
                 if v.concrete and not v.dstar:
                     return bool(v.items)
                 return self.decide(("nonempty", v.uid))
+            if isinstance(v, SBound) and isinstance(v.recv, SObj) and not v.recv.kinds <= _BUILTIN_VALUE_KINDS:
+                # an attribute of an object of unknown class need not be a method
+                return self.decide(("truthy", ("attr", v.recv.uid, v.name)))
             if isinstance(v, (SNew, SFunc, SClass, SExtern, SBound)):
                 if isinstance(v, SNew) and v.cls_name in ("HTML", "TagList", "TagAttrDict", "JSXTagAttrDict"):
                     return self.decide(("nonempty", v.uid))
@@ -263,6 +269,9 @@ class Run:
     def effect(self, kind: str, target: Any = None, key: Any = None, value: Any = None, node: Optional[ast.AST] = None,
                extra: Any = None) -> None:
         self.effects.append(Effect(kind, target, key, value, node, extra))
+
+
+_BUILTIN_VALUE_KINDS = frozenset({"STR", "LIST", "TUPLE", "DICT", "SET", "INT", "FLOAT", "BYTES", "NONE", "TRUE", "FALSE", "RANGE", "SLICE"})
 
 
 class Interp:
